@@ -5,6 +5,7 @@ import (
 	"fmt"
 	"math/big"
 	"reflect"
+	"sort"
 	"strings"
 	"testing"
 
@@ -155,6 +156,148 @@ func lookupExpect(prefix string, n uint64) func(s site, kind string, orig, mut r
 	}
 }
 
+// lookupDegenerateGenerator builds, for a FALSE statement (some value of f is not in the table), a
+// ProofLookupVector around the generator g' = 1 that only the test on the ORDER of proof.g can reject.
+// With g' = 1 every "shifted" polynomial equals itself and g'^(n-1) = 1, so Ln = L0 and the
+// verifier's numerator is (X-1)*z*[...] + (alpha+alpha^2)*L0*(z-1) + alpha^3*L0*(h1-h2): it vanishes on
+// the whole domain for z = L0/n and h1 = h2, whatever f and t are. Quotient and all KZG openings are
+// genuine, the challenges are the verifier's own, and the verifier's identity and both batch
+// openings are re-checked here before the proof is submitted. fCom/tCom are the commitments the
+// honestly run prover made for the same (f, t): the forged proof must carry the same statement.
+func (c *curve) lookupDegenerateGenerator(g *big.Int, f, tb []*big.Int, fCom, tCom reflect.Value) (forged reflect.Value, ok bool) {
+	pk, vk := c.srs()
+	q := c.q
+	n := lookupDomain(len(f), len(tb))
+	pad := func(v []*big.Int) []*big.Int {
+		out := make([]*big.Int, n)
+		for i := range out {
+			if i < len(v) {
+				out[i] = v[i]
+			} else {
+				out[i] = v[len(v)-1]
+			}
+		}
+		return out
+	}
+	lf, lt := pad(f), pad(tb)
+	sort.Slice(lt, func(i, j int) bool { return lt[i].Cmp(lt[j]) < 0 })
+	digT := c.kzg.Types["Digest"]
+	commit := func(p []*big.Int) (reflect.Value, reflect.Value) {
+		e := c.elems(p)
+		r := c.kzg.F("Commit", e.Interface(), pk)
+		must(reg.Err(r))
+		return e, reflect.ValueOf(r[0])
+	}
+	cf, ct := interpolate(lf, g, q), interpolate(lt, g, q)
+	ef, df := commit(cf)
+	et, dt := commit(ct)
+	if !same(df, fCom) || !same(dt, tCom) {
+		return forged, false
+	}
+	// h1 = h2 = t (any common polynomial will do)
+	ch1, eh1, dh1 := ct, et, dt
+	fs := fiatshamir.NewTranscript(sha256.New(), "beta", "gamma", "alpha", "nu")
+	derive := func(name string, pts ...reflect.Value) *big.Int {
+		for _, p := range pts {
+			must(fs.Bind(name, rawBytes(p)))
+		}
+		b, err := fs.ComputeChallenge(name)
+		must(err)
+		return new(big.Int).Mod(new(big.Int).SetBytes(b), q)
+	}
+	beta := derive("beta", dt, df, dh1, dh1)
+	gamma := derive("gamma")
+	one := big.NewInt(1)
+	ninv := invm(big.NewInt(int64(n)), q)
+	cz := make([]*big.Int, n) // L0/n: 1 at X=1, 0 on the rest of the domain
+	l0 := make([]*big.Int, n)
+	for i := range cz {
+		cz[i], l0[i] = ninv, one
+	}
+	ez, dz := commit(cz)
+	alpha := derive("alpha", dz)
+	opb := addm(one, beta, q)
+	gopb := mulm(gamma, opb, q)
+	scale := func(p []*big.Int, k *big.Int) []*big.Int {
+		out := make([]*big.Int, len(p))
+		for i := range p {
+			out[i] = mulm(p[i], k, q)
+		}
+		return out
+	}
+	addc := func(p []*big.Int, k *big.Int) []*big.Int {
+		out := append([]*big.Int(nil), p...)
+		out[0] = addm(out[0], k, q)
+		return out
+	}
+	// m = (1+beta)(gamma+f)(gamma(1+beta) + (1+beta) t), nn = (gamma(1+beta) + (1+beta) h1)^2
+	mm := scale(polyMul(addc(cf, gamma), addc(scale(ct, opb), gopb), q), opb)
+	hterm := addc(scale(ch1, opb), gopb)
+	nn := polyMul(hterm, hterm, q)
+	num := polyMul(polyMul([]*big.Int{subm(new(big.Int), one, q), one}, cz, q), polySub(mm, nn, q), q) // (X-1) z (m - n)
+	bnd := scale(polyMul(l0, polySub(cz, []*big.Int{one}, q), q), addm(alpha, mulm(alpha, alpha, q), q))
+	num = polySub(num, polySub(nil, bnd, q), q)
+	ch, exact := polyDivXnMinus1(num, n, q)
+	if !exact {
+		return forged, false
+	}
+	for len(ch) < 2*n {
+		ch = append(ch, new(big.Int))
+	}
+	eh, dh := commit(ch)
+	nu := derive("nu", dh)
+	// the verifier's identity with g = 1, re-evaluated from the definitions
+	{
+		vh1, vt, vz, vf, vh := polyEval(ch1, nu, q), polyEval(ct, nu, q), polyEval(cz, nu, q), polyEval(cf, nu, q), polyEval(ch, nu, q)
+		xn1 := subm(expm(nu, int64(n), q), one, q)
+		l0e := mulm(xn1, invm(subm(nu, one, q), q), q)
+		lhs := mulm(mulm(mulm(subm(nu, one, q), vz, q), opb, q), mulm(addm(gamma, vf, q), addm(addm(mulm(beta, vt, q), vt, q), gopb, q), q), q)
+		hv := addm(addm(mulm(beta, vh1, q), vh1, q), gopb, q)
+		rhs := mulm(mulm(subm(nu, one, q), vz, q), mulm(hv, hv, q), q)
+		tot := subm(lhs, rhs, q)
+		zb := mulm(subm(vz, one, q), l0e, q)
+		tot = addm(tot, mulm(zb, addm(alpha, mulm(alpha, alpha, q), q), q), q)
+		if tot.Cmp(mulm(xn1, vh, q)) != 0 {
+			return forged, false
+		}
+	}
+	mk := func(prs ...[2]reflect.Value) (reflect.Value, reflect.Value) {
+		polys := reflect.MakeSlice(reflect.SliceOf(reflect.SliceOf(c.elT)), len(prs), len(prs))
+		digs := reflect.MakeSlice(reflect.SliceOf(digT), len(prs), len(prs))
+		for i, pr := range prs {
+			polys.Index(i).Set(pr[0])
+			digs.Index(i).Set(pr[1])
+		}
+		return polys, digs
+	}
+	p6, d6 := mk([2]reflect.Value{eh1, dh1}, [2]reflect.Value{eh1, dh1}, [2]reflect.Value{et, dt}, [2]reflect.Value{ez, dz}, [2]reflect.Value{ef, df}, [2]reflect.Value{eh, dh})
+	p4, d4 := mk([2]reflect.Value{eh1, dh1}, [2]reflect.Value{eh1, dh1}, [2]reflect.Value{et, dt}, [2]reflect.Value{ez, dz})
+	nuE := c.elem(nu).Interface()
+	r6 := c.kzg.F("BatchOpenSinglePoint", p6.Interface(), d6.Interface(), nuE, sha256.New(), pk)
+	r4 := c.kzg.F("BatchOpenSinglePoint", p4.Interface(), d4.Interface(), nuE, sha256.New(), pk) // shifted point g'*nu = nu
+	if reg.Err(r6) != nil || reg.Err(r4) != nil {
+		return forged, false
+	}
+	b6, b4 := ptrOf(r6[0]), ptrOf(r4[0])
+	if reg.Err(c.kzg.F("BatchVerifySinglePoint", d6.Interface(), b6, nuE, sha256.New(), vk)) != nil ||
+		reg.Err(c.kzg.F("BatchVerifySinglePoint", d4.Interface(), b4, nuE, sha256.New(), vk)) != nil {
+		return forged, false
+	}
+	forged = reflect.New(c.plk.Types["ProofLookupVector"])
+	pf := forged.Elem()
+	getField(pf, "size").SetUint(uint64(n))
+	setField(pf, "g", c.elem(one))
+	for _, kv := range []struct {
+		n string
+		v reflect.Value
+	}{{"h1", dh1}, {"h2", dh1}, {"t", dt}, {"z", dz}, {"f", df}, {"h", dh}} {
+		setField(pf, kv.n, kv.v)
+	}
+	pf.FieldByName("BatchedProof").Set(reflect.ValueOf(b6).Elem())
+	pf.FieldByName("BatchedProofShifted").Set(reflect.ValueOf(b4).Elem())
+	return forged, true
+}
+
 func propLookupVector(t *rapid.T, c *curve) {
 	test := "C17b_LookupVector/" + c.name
 	f, tb, cls := drawLookupVector(t, c, "a")
@@ -195,6 +338,23 @@ func propLookupVector(t *rapid.T, c *curve) {
 				cl = "false_stmt:last_entry_rejected"
 			}
 			rep.Case(test, fs, true, "plookup_vector", "forged", cl)
+			// degenerate generator: consistent proof of the same false statement around g' = 1
+			gTrue := feltBig(getField(a.Elem(), "g"))
+			if !hasOrder(gTrue, d, c.q) {
+				t.Fatalf("%s: honest proof carries a generator of order != %d", test, d)
+			}
+			if forged, ok := c.lookupDegenerateGenerator(gTrue, ff, tb, getField(fp.Elem(), "f"), getField(fp.Elem(), "t")); ok {
+				o := guard(func() error { return c.lookupVectorVerify(forged.Elem()) })
+				if o.accepted {
+					accepted(t, "%s: FALSE STATEMENT ACCEPTED: proof built around the generator g'=1 (z = L0/n, h1 = h2, genuine quotient and openings): the order of proof.g is not enforced (%s)", test, clip(fs))
+				}
+				if o.panicked != nil {
+					t.Fatalf("%s: verifier panicked: %v", test, o.panicked)
+				}
+				rep.Case(test, fs+" g'=1", true, "plookup_vector", "forgery:degenerate_generator(plookup)", "forged", "rejected")
+			} else {
+				rep.Case(test, fs+" g'=1", false, "plookup_vector", "forgery:degenerate_generator(plookup)|construction_unavailable")
+			}
 		}
 	}
 
